@@ -23,7 +23,7 @@
 From Coq Require Import List NArith Bool String.
 From FS Require Import Sx Model.Path Model.Stat Model.Tree Model.Pattern Model.FilterWalk
   Proofs.PathP Proofs.PatternP Proofs.FilterP Proofs.PruneP Proofs.IncrNaiveP Proofs.RefP
-  Proofs.NaiveRefP Proofs.WitnessP.
+  Proofs.NaiveRefP Proofs.FlatRefP Proofs.WitnessP.
 Import ListNotations.
 
 (* ---- pruning is unobservable ----
@@ -112,6 +112,34 @@ Proof.
          (conj (lit_pmatch_prefix_semantics _) (conj eq_refl (conj eq_refl k1_walk_ne_reference))))))).
 Qed.
 
+(* ---- what [reference] says, in the words of the property ----
+   nil map function: the reference is the full walk (Model/Tree.walk_root) filtered by
+   "selected, or its path followed by '/' is a prefix of the path of a selected entry" — in walk
+   order, each once, each directory before its contents (views with distinct sibling names,
+   only directories having children) *)
+Theorem reference_nomap_is_flat :
+  forall V view, wf_tree view = true -> reference V id_map view = flat_reference V view.
+Proof. exact reference_nomap_flat_proof. Qed.
+
+(* a map function that never drops anything: its rewriting is applied to exactly those entries *)
+Theorem reference_rewrite_only :
+  forall V mapfn view, (forall p s, fst (mapfn p s) = MKeep) ->
+    reference V mapfn view = map (fun s => snd (mapfn (st_path s) s)) (reference V id_map view).
+Proof. exact (fun V mapfn view H => reference_rewrite_only_proof V mapfn H view). Qed.
+
+(* the property for a nil map function, end to end: the walk as the code runs it (pruning,
+   incremental matching, lazy parents) = the flat naive filter of the full tree *)
+Theorem filter_walk_nomap_is_flat_naive :
+  forall pmatch c view,
+    prefix_semantics pmatch -> cfg_star_safe c = true -> wf_strict view = true -> wf_tree view = true ->
+    all_paths (nls_path pmatch c) view = true ->
+    filter_walk pmatch id_map c view = flat_reference (keep_naive pmatch c) view.
+Proof.
+  exact (fun pmatch c view Hs Hc Hw Ht Hn =>
+           eq_trans (filter_walk_naive_reference_proof pmatch c id_map view Hs Hc Hw Hn)
+                    (reference_nomap_flat_proof (keep_naive pmatch c) view Ht)).
+Qed.
+
 Print Assumptions prune_unobservable.
 Print Assumptions prune_observable_refuted.
 Print Assumptions filter_walk_is_incr_reference.
@@ -120,6 +148,9 @@ Print Assumptions incr_eq_naive.
 Print Assumptions incr_ne_naive_refuted.
 Print Assumptions filter_walk_is_naive_reference.
 Print Assumptions walk_ne_naive_reference_refuted.
+Print Assumptions reference_nomap_is_flat.
+Print Assumptions reference_rewrite_only.
+Print Assumptions filter_walk_nomap_is_flat_naive.
 
 (* ---- non-vacuity: the tree of filter_test.go (TestWalkerDoublestarInclude); the same inputs
         are run against the real code by corpus/C10/examples.case ---- *)
@@ -140,7 +171,8 @@ Example ex_mixed :
   paths (filter_walk pm_ex id_map cfgB ft_view) =
   map bs ["a"; "a/b"; "a/b/bar"; "a/b/bar/fop"; "a/b/baz"; "bar"; "bar/foo"; "foo"; "foo/bar"; "foo/bar/bee"]
   /\ filter_walk pm_ex id_map cfgB ft_view = reference (keep_naive pm_ex cfgB) id_map ft_view
-  /\ (cfg_star_safe cfgB = true /\ wf_strict ft_view = true /\ all_paths (nls_path pm_ex cfgB) ft_view = true).
+  /\ filter_walk pm_ex id_map cfgB ft_view = flat_reference (keep_naive pm_ex cfgB) ft_view
+  /\ (cfg_star_safe cfgB = true /\ wf_tree ft_view = true /\ wf_strict ft_view = true /\ all_paths (nls_path pm_ex cfgB) ft_view = true).
 Proof. vm_compute. repeat split; reflexivity. Qed.
 
 (* prefix-only includes (pruning active: bar, foo2 and a/b/baz are never visited); map function:
